@@ -6,6 +6,7 @@ import (
 	"encoding/json"
 	"fmt"
 	"go/ast"
+	"go/constant"
 	"go/types"
 	"math/rand/v2"
 	"os"
@@ -80,6 +81,12 @@ func shapeSource(i int, shape string, next string) (string, error) {
 		return fmt.Sprintf("func %s(s string) (int, error) { return strconv.Atoi(s) }\n", f), nil
 	case "iface":
 		return fmt.Sprintf("type i%d interface{ Do() (int, error) }\n\nfunc %s(x i%d) (int, error) { return x.Do() }\n\ntype m%d struct{}\n\nfunc (m%d) Do() (int, error) { return 3, errX }\n", i, f, i, i, i), nil
+	case "litoctal": // legacy octal spellings: the values are 420 and 493
+		return fmt.Sprintf("func %s(c bool) int {\n\tif c {\n\t\treturn 0644\n\t}\n\treturn 0755\n}\n", f), nil
+	case "localconst": // a function-local constant; the same name means another value in every function of the package
+		return fmt.Sprintf("func %s() int {\n\tconst size = %d\n\treturn size * 2\n}\n", f, 8*i), nil
+	case "localconststr": // ... and another type
+		return fmt.Sprintf("func %s() string {\n\tconst size = \"s%d\"\n\treturn size + size\n}\n", f, i), nil
 	case "chain": // a call chain over two package boundaries: x1.G returns x2.H(), which returns a concrete error type
 		return fmt.Sprintf("func %s() error { return x1.G() }\n", f), nil
 	case "closure3": // a func literal with FEWER results than the enclosing function, whose return lists a single-result call first
@@ -133,6 +140,31 @@ func resultString(r gengotypes.Result) string {
 		return "type:" + r.Type.String()
 	}
 	return "invalid"
+}
+
+// constFits: can a constant of this kind be a value of type T (lenient: kinds only, not ranges)
+func constFits(v constant.Value, T types.Type) bool {
+	u := T.Underlying()
+	if _, ok := u.(*types.Interface); ok {
+		return true // any, error-like interfaces, type parameters
+	}
+	b, ok := u.(*types.Basic)
+	if !ok {
+		return false
+	}
+	switch v.Kind() {
+	case constant.Bool:
+		return b.Info()&types.IsBoolean != 0
+	case constant.String:
+		return b.Info()&types.IsString != 0
+	case constant.Int:
+		return b.Info()&types.IsNumeric != 0
+	case constant.Float:
+		return b.Info()&(types.IsFloat|types.IsComplex) != 0 || (b.Info()&types.IsInteger != 0 && constant.ToInt(v).Kind() == constant.Int)
+	case constant.Complex:
+		return b.Info()&types.IsComplex != 0 || (b.Info()&types.IsNumeric != 0 && constant.ToFloat(v).Kind() == constant.Float)
+	}
+	return true
 }
 
 // gvh child results-run <dir> <skipTo> <outfile> <onlyLocal:0|1>
@@ -261,7 +293,11 @@ func resultsChild(args []string) error {
 				for _, r := range rs {
 					a = append(a, resultString(r))
 					if r.Value != nil {
-						continue // a constant
+						// a constant: of a kind a value of the declared result type can have
+						if i < declared && !constFits(r.Value, sig.Results().At(i).Type()) {
+							notAssignable = append(notAssignable, fmt.Sprintf("%d:const %s", i, r.Value.ExactString()))
+						}
+						continue
 					}
 					if i < declared && r.Type != nil && types.AssignableTo(r.Type, sig.Results().At(i).Type()) {
 						continue
@@ -431,7 +467,7 @@ func (resultsFam) ExecAll(cases []core.CaseIn, seed int64, emit func(c core.Case
 				repo = "/repo"
 			}
 			examined, total, err := superviseResults(self, repo, false, func(key resultsUnit, obs map[string]any) {
-				emit(c, map[string]any{"kind": "corpus", "shape": "-", "pkg": key.Pkg, "func": key.Name}, map[string]any{"examined": 0}, obs)
+				emit(c, map[string]any{"kind": "corpus", "shape": "-", "pkg": key.Pkg, "func": key.Name, "idx": 0}, map[string]any{"examined": 0}, obs)
 			})
 			if err != nil {
 				return err
@@ -477,7 +513,7 @@ func (resultsFam) ExecAll(cases []core.CaseIn, seed int64, emit func(c core.Case
 			if _, e := fmt.Sscanf(name, "f%d", &k); e == nil && fmt.Sprintf("f%d", k) == name && k >= 1 && k <= len(synthCases[j].Shapes) {
 				shape = synthCases[j].Shapes[k-1]
 			}
-			emit(synth[j], map[string]any{"kind": "synthetic", "shape": shape, "shapes": synthCases[j].Shapes, "pkg": key.Pkg, "func": key.Name}, map[string]any{}, obs)
+			emit(synth[j], map[string]any{"kind": "synthetic", "shape": shape, "shapes": synthCases[j].Shapes, "pkg": key.Pkg, "func": key.Name, "idx": k}, map[string]any{}, obs)
 		})
 		os.RemoveAll(dir)
 		if err != nil {
